@@ -3,6 +3,8 @@ import Cutadapt.Proofs.IndexEnv
 import Cutadapt.Proofs.IndexDict
 import Cutadapt.Proofs.IndexOrder
 import Cutadapt.Proofs.IndexLookup
+import Cutadapt.Proofs.IndexLengths
+import Cutadapt.Proofs.IndexNearest
 /-! # C08 — an adapter index changes only speed, never what is found
 
 Model: `Cutadapt/Index.lean` (`hammingSphere`, `editEnvironment`, `makeIndex`, `indexMatchTo`).
@@ -10,12 +12,16 @@ The theorems hold for every string / adapter list / read (induction, no sampling
 implementation that satisfies the three lookup laws (`DictOps.Lawful`): the association list used in the `decide`
 examples and the `Std.HashMap` the compiled driver runs (`dict_instances_lawful`).
 
-On the unchanged tree the property is false in three ways (each found by the oracle of `harness/props/c08.py`):
-* a read shorter than an indexed length gets coordinates outside the read (`index_sound_counterexample`);
-* an ambiguity mark between two worse candidates is never cleared when a strictly better adapter arrives later
-  (`index_nearest_counterexample`);
-* for a read with `N` the re-alignment of `_lookup_with_n` is reported with the looked-up length (not modelled as a
-  theorem; see the oracle signature `C08/index-errors-not-distance`).
+History. Three defects found by the oracle of `harness/props/c08.py` were repaired in the tree (commits 6d0af29, ecc3a50,
+ee05d18) and the model follows the repaired code:
+* a read shorter than an indexed length got coordinates outside the read (`-a ACGT$ -a ACACGT$`, read `ACGT`:
+  `rstart = −2`) — now `index_sound` holds for reads of every length (`example`s below show the former reproducers);
+* an ambiguity mark between two worse candidates was never cleared when a strictly better adapter arrived later
+  (`^TCGTACGT ^CCGTACGT ^ACGTACGT`, one mismatch, read `ACGTACGTAA` stayed unassigned) — now the mark is exactly "the best
+  number of matches was offered at least twice" (`index_fold_invariant`), the final index is independent of the adapter order
+  (`index_order_independent`) and the strictly nearest adapter is reported (`index_nearest`);
+* for a read with `N` the re-alignment of `_lookup_with_n` was reported with the looked-up length — now with its own length
+  (model: `lookupWithN`; covered by the correspondence and the oracle, soundness of the re-alignment itself is C01).
 -/
 namespace Cutadapt.C08
 open Cutadapt Cutadapt.Adapters Cutadapt.Index
@@ -75,17 +81,18 @@ theorem dict_instances_lawful : alistOps.Lawful ∧ hashOps.Lawful := ⟨alistOp
     `offers` are the loop-body executions `(adapter, s, errors, matches)` for the string `s` in processing order:
     * `s` is absent iff nothing was offered;
     * the entry is one of the offers and no offer had more matches;
-    * `s` is in `ambiguous` iff some offer tied with the entry that was current when it arrived (the mark is never
-      removed: `index_ambiguous_monotone`);
-    * the final index holds the entry unless `s` was marked. -/
+    * `s` is in `ambiguous` iff the entry's number of matches — the best one — was offered at least twice (a tie between
+      two worse offers is forgotten as soon as a strictly better offer arrives);
+    * the final index holds the entry unless `s` is marked. -/
 theorem index_fold_invariant {D : Type} (ops : DictOps D) (hl : ops.Lawful) (adapters : List Adapter) (isPrefix : Bool)
     (s : Bytes) :
     let st := buildAll ops adapters
     let offers := forKey s (events adapters)
     (ops.get? st.index s = none ↔ offers = []) ∧
     (∀ ai e m, ops.get? st.index s = some (ai, e, m) →
-      (∃ ev ∈ offers, ev.ai = ai ∧ ev.e = e ∧ ev.m = m) ∧ ∀ ev ∈ offers, ev.m ≤ m) ∧
-    (s ∈ st.ambKeys ↔ ∃ pre ev post, offers = pre ++ ev :: post ∧ ∃ oa oe, (keyState pre).1 = some (oa, oe, ev.m)) ∧
+      (∃ ev ∈ offers, ev.ai = ai ∧ ev.e = e ∧ ev.m = m) ∧ (∀ ev ∈ offers, ev.m ≤ m) ∧
+      (s ∈ st.ambKeys ↔ 2 ≤ (offers.filter (fun ev => ev.m == m)).length)) ∧
+    (ops.get? st.index s = none → s ∉ st.ambKeys) ∧
     ops.get? (makeIndex ops adapters isPrefix).index s = (if s ∈ st.ambKeys then none else ops.get? st.index s) := by
   intro st offers
   obtain ⟨h1, h2, h3⟩ := makeIndex_get? ops hl adapters isPrefix s
@@ -93,8 +100,12 @@ theorem index_fold_invariant {D : Type} (ops : DictOps D) (hl : ops.Lawful) (ada
   · rw [h1]; exact keyState_none_iff _
   · intro ai e m h
     rw [h1] at h
-    exact ⟨keyState_mem _ ai e m h, keyState_max _ ai e m h⟩
-  · rw [h2]; exact keyState_amb_iff _
+    refine ⟨keyState_mem _ ai e m h, keyState_max _ ai e m h, ?_⟩
+    rw [h2]; exact keyState_amb_iff _ ai e m h
+  · intro hn hm
+    rw [h1] at hn
+    have := keyState_flag_of_none _ hn
+    rw [h2.mp hm] at this; cases this
   · show ops.get? (makeIndex ops adapters isPrefix).index s =
       (if s ∈ (buildAll ops adapters).ambKeys then none else ops.get? (buildAll ops adapters).index s)
     rw [h3, h1]
@@ -102,52 +113,51 @@ theorem index_fold_invariant {D : Type} (ops : DictOps D) (hl : ops.Lawful) (ada
     · rw [if_pos hb, if_pos (h2.mpr hb)]
     · rw [if_neg hb, if_neg (fun hm => hb (h2.mp hm))]
 
-theorem events_append (as bs : List Adapter) :
-    events (as ++ bs) = events as ++ (bs.zipIdx as.length).flatMap adapterEvents := by
-  simp [events, List.zipIdx_append]
-
-/-- `ambiguous` is only ever added to: a key marked after the adapters `as` stays marked whatever follows -/
-theorem index_ambiguous_monotone {D : Type} (ops : DictOps D) (hl : ops.Lawful) (as bs : List Adapter) (s : Bytes)
-    (h : s ∈ (buildAll ops as).ambKeys) : s ∈ (buildAll ops (as ++ bs)).ambKeys := by
-  have h1 := (makeIndex_get? ops hl as true s).2.1
-  have h2 := (makeIndex_get? ops hl (as ++ bs) true s).2.1
-  rw [h2, events_append, forKey_append]
-  exact keyState_amb_mono _ _ (h1.mp h)
-
-/-- **Order independence, for keys without ties**: if no two offers for `s` have the same number of matches, the final
-    index holds the same adapter, errors and matches for `s` under every permutation of the adapter list. -/
-theorem index_order_independent_partial {D : Type} (ops : DictOps D) (hl : ops.Lawful) (as bs : List Adapter)
-    (hp : as.Perm bs) (isPrefix : Bool) (s : Bytes)
-    (hnoties : (rForKey s (rEvents as)).Pairwise (fun x y => x.2.2.2 ≠ y.2.2.2)) :
+/-- **Order independence**: the final index holds the same adapter, errors and matches for every string — and lacks
+    the same strings — under every permutation of the adapter list. -/
+theorem index_order_independent {D : Type} (ops : DictOps D) (hl : ops.Lawful) (as bs : List Adapter)
+    (hp : as.Perm bs) (isPrefix : Bool) (s : Bytes) :
     finalEntry ops as isPrefix s = finalEntry ops bs isPrefix s :=
-  finalEntry_perm ops hl as bs hp isPrefix s hnoties
+  finalEntry_perm ops hl as bs hp isPrefix s
+
+/-- the final index, declaratively: `(a, e, m)` is stored for `s` iff `(a, s, e, m)` is the unique best offer -/
+theorem index_entry_iff_unique_best {D : Type} (ops : DictOps D) (hl : ops.Lawful) (adapters : List Adapter) (isPrefix : Bool)
+    (s : Bytes) (a : Adapter) (e m : Nat) :
+    finalEntry ops adapters isPrefix s = some (a, e, m) ↔ IsWinner (rForKey s (rEvents adapters)) (a, s, e, m) :=
+  finalEntry_eq_some_iff ops hl adapters isPrefix s a e m
 
 /-- anchored adapter with a fixed number `k` of allowed errors, for the examples -/
 def mkA (ty : AdapterType) (seq : Bytes) (k : Nat) (indels : Bool) : Adapter :=
   { ty := ty, seq := seq, thr := fun _ => k, minOverlap := seq.length, readWildcards := false,
     adapterWildcards := false, indels := indels }
 
-/-- "ACGT", "ACGA" with one mismatch allowed: "ACGC" is offered by both with 3 matches — marked and deleted -/
+/-- "ACGT", "ACGA" with one mismatch allowed: "ACGC" and "ACGG" are offered by both with 3 matches — marked and deleted -/
 example : (buildAll alistOps [mkA .prefix [65,67,71,84] 1 false, mkA .prefix [65,67,71,65] 1 false]).ambKeys
     = [[65,67,71,71], [65,67,71,67]] := by decide
 example : alistOps.get? (makeIndex alistOps [mkA .prefix [65,67,71,84] 1 false, mkA .prefix [65,67,71,65] 1 false] true).index
     [65,67,71,67] = none := by decide
-/-- "ACGT" itself is offered with 4 matches by the first and 3 by the second adapter: no tie, same entry in both orders -/
+/-- "ACGT" itself is offered with 4 matches by the first and 3 by the second adapter: same entry in both orders -/
 example : (alistOps.get? (makeIndex alistOps [mkA .prefix [65,67,71,84] 1 false, mkA .prefix [65,67,71,65] 1 false] true).index
       [65,67,71,84]).map (·.2) = some (0, 4) ∧
     (alistOps.get? (makeIndex alistOps [mkA .prefix [65,67,71,65] 1 false, mkA .prefix [65,67,71,84] 1 false] true).index
       [65,67,71,84]).map (·.2) = some (0, 4) := by decide
+/-- the former defect: "TCGTACGT", "CCGTACGT" tie on "ACGTACGT" (7 matches), then "ACGTACGT" offers it with 8 — the mark
+    is cleared and the string stays in the index, for the third adapter -/
+example : alistOps.get? (makeIndex alistOps
+      [mkA .prefix [84,67,71,84,65,67,71,84] 1 false, mkA .prefix [67,67,71,84,65,67,71,84] 1 false,
+       mkA .prefix [65,67,71,84,65,67,71,84] 1 false] true).index [65,67,71,84,65,67,71,84] = some (2, 0, 8) := by
+  decide +kernel
 
 /-! ## Look-up -/
 
-/-- **Key-level soundness of `_match_to_one_length` / `_match_to_multiple_lengths`**, for any index: on an N-free read
-    at least as long as every indexed length, a returned match has `0 ≤ rstart ≤ rstop ≤ n`, is anchored, and the
-    removed affix (of the upper-cased read) is a key of the index whose entry is the reported adapter with the reported
-    errors and score. -/
+/-- **Key-level soundness of `_match_to_one_length` / `_match_to_multiple_lengths`**, for any index whose keys have
+    indexed lengths, on every N-free read (short ones included): a returned match has `0 ≤ rstart ≤ rstop ≤ n`, is
+    anchored, and the removed affix (of the upper-cased read) is a key of the index whose entry is the reported adapter
+    with the reported errors and score. -/
 theorem index_lookup_sound {D : Type} (ops : DictOps D) (idx : AdapterIndex D) (read : Bytes)
     (hN : (78 : UInt8) ∉ read.map asciiUpper)
     (hdesc : idx.lengths.Pairwise (· ≥ ·))
-    (hlen : ∀ l ∈ idx.lengths, l ≤ read.length)
+    (hkeys : ∀ s en, ops.get? idx.index s = some en → s.length ∈ idx.lengths)
     (hpos : idx.isPrefix = false → ∀ l ∈ idx.lengths, 1 ≤ l)
     (mt : IndexMatch) (h : indexMatchTo ops idx read = some mt) :
     0 ≤ mt.rstart ∧ mt.rstart ≤ mt.rstop ∧ mt.rstop ≤ read.length ∧
@@ -156,8 +166,7 @@ theorem index_lookup_sound {D : Type} (ops : DictOps D) (idx : AdapterIndex D) (
     ∃ m : Nat, mt.score = m ∧
       ops.get? idx.index (if idx.isPrefix then (read.map asciiUpper).take mt.rstop
                           else (read.map asciiUpper).drop mt.rstart.toNat) = some (mt.adapter, mt.errors, m) := by
-  obtain ⟨len, m, hmem, h1, h2, h3, h4, h5⟩ := indexMatchTo_key ops idx read hN hdesc hlen hpos mt h
-  have hl := hlen len hmem
+  obtain ⟨len, m, hmem, hl, h1, h2, h3, h4, h5⟩ := indexMatchTo_key ops idx read hN hdesc hkeys hpos mt h
   cases hp : idx.isPrefix
   · simp only [hp, Bool.false_eq_true, if_false] at h4 h5 ⊢
     simp only [removedAffix, Bool.false_eq_true, if_false, List.length_map] at h5
@@ -182,14 +191,8 @@ theorem index_entry_offered {D : Type} (ops : DictOps D) (hl : ops.Lawful) (adap
   · simp at h
   · obtain ⟨ev, hev, rfl, rfl, rfl⟩ := keyState_mem _ ai e m h
     have hkey : ev.key = s := by simpa using (List.mem_filter.mp hev).2
-    have hev' : ev ∈ events adapters := (List.mem_filter.mp hev).1
-    simp only [events, List.mem_flatMap] at hev'
-    obtain ⟨⟨a, i⟩, hai, hin⟩ := hev'
-    simp only [adapterEvents, List.mem_map] at hin
-    obtain ⟨it, hit, rfl⟩ := hin
-    refine ⟨a, List.mk_mem_zipIdx_iff_getElem?.mp hai, ?_⟩
-    simp only at hkey
-    rw [← hkey]; exact hit
+    obtain ⟨a, ha, hit⟩ := (mem_events adapters ev).mp (List.mem_filter.mp hev).1
+    exact ⟨a, ha, by rw [← hkey]; exact hit⟩
 
 /-- what an offer of an adapter over ACGT means (relative to the two specifications above) -/
 theorem adapterItems_spec (a : Adapter) (ha : IsACGT a.seq) (s : Bytes) (e m : Nat) (h : (s, e, m) ∈ adapterItems a) :
@@ -208,7 +211,40 @@ theorem adapterItems_spec (a : Adapter) (ha : IsACGT a.seq) (s : Bytes) (e m : N
     have := editEnvironment_sound a.seq (adapterK a) ha s e m h
     exact ⟨this.2.1, this.2.2⟩
 
-/-- the full soundness clause of C08 for one configuration -/
+/-- the length of every key of the final index is one of `lengths` -/
+theorem index_keys_have_indexed_length {D : Type} (ops : DictOps D) (hl : ops.Lawful) (adapters : List Adapter)
+    (isPrefix : Bool) (hacgt : ∀ a ∈ adapters, IsACGT a.seq) (s : Bytes) (en : Entry)
+    (h : ops.get? (makeIndex ops adapters isPrefix).index s = some en) :
+    s.length ∈ (makeIndex ops adapters isPrefix).lengths := by
+  obtain ⟨h1, _, h3⟩ := makeIndex_get? ops hl adapters isPrefix s
+  have hb : ops.get? (buildAll ops adapters).index s ≠ none := by
+    rw [h1]; rw [h3] at h
+    split at h
+    · simp at h
+    · rw [h]; simp
+  exact (mem_sortDesc _ _).mpr ((buildAll_lengths ops hl adapters hacgt).1 s hb)
+
+/-- no indexed length is 0 when every adapter tolerates fewer errors than it is long -/
+theorem index_lengths_positive {D : Type} (ops : DictOps D) (hl : ops.Lawful) (adapters : List Adapter) (isPrefix : Bool)
+    (hacgt : ∀ a ∈ adapters, IsACGT a.seq) (htol : ∀ a ∈ adapters, adapterK a < a.seq.length) :
+    ∀ l ∈ (makeIndex ops adapters isPrefix).lengths, 1 ≤ l := by
+  intro l hl'
+  have hl'' : l ∈ (buildAll ops adapters).lengths := (mem_sortDesc _ _).mp hl'
+  obtain ⟨ev, hev, hlen⟩ := (buildAll_lengths ops hl adapters hacgt).2 l hl''
+  obtain ⟨a, ha, hit⟩ := (mem_events adapters ev).mp hev
+  have hmem := List.mem_of_getElem? ha
+  obtain ⟨hk, hd⟩ := adapterItems_spec a (hacgt a hmem) _ _ _ hit
+  have ht := htol a hmem
+  cases hi : a.indels
+  · simp only [hi, Bool.false_eq_true, if_false] at hd
+    omega
+  · simp only [hi, if_true] at hd
+    obtain ⟨⟨sc, h1, h2, h3⟩, _⟩ := hd
+    have := (cost_ge sc).1
+    rw [h1, h2, h3] at this
+    omega
+
+/-- the soundness clause of C08 for one configuration -/
 def IndexSoundFor {D : Type} (ops : DictOps D) (adapters : List Adapter) (isPrefix : Bool) (read : Bytes) : Prop :=
   ∀ mt, indexMatchTo ops (makeIndex ops adapters isPrefix) read = some mt →
     ∃ a, adapters[mt.adapter]? = some a ∧
@@ -225,24 +261,21 @@ def IndexSoundFor {D : Type} (ops : DictOps D) (adapters : List Adapter) (isPref
            (if isPrefix then (read.map asciiUpper).take mt.rstop else (read.map asciiUpper).drop mt.rstart.toNat) a.seq
            = mt.errors)
 
-/-- **The soundness clause as the property states it** (every N-free read, no condition on its length): false on the
-    unchanged tree, see `index_sound_counterexample`. -/
-def index_sound_statement : Prop :=
-  ∀ (D : Type) (ops : DictOps D), ops.Lawful → ∀ (adapters : List Adapter) (isPrefix : Bool) (read : Bytes),
-    (∀ a ∈ adapters, IsACGT a.seq) → (78 : UInt8) ∉ read.map asciiUpper → IndexSoundFor ops adapters isPrefix read
-
-/-- **Soundness under the explicit (decidable) side conditions** "the read is at least as long as every indexed
-    length" and, for 3' adapters, "no indexed length is 0" (`s[-0:]` is the whole string): every match returned through
-    the index lies inside the read, is anchored, names an adapter of the list, `errors` is within that adapter's
-    tolerance and is the exact edit (Hamming, if indels are off) distance between the adapter and the removed affix. -/
-theorem index_sound_partial {D : Type} (ops : DictOps D) (hl : ops.Lawful) (adapters : List Adapter) (isPrefix : Bool)
+/-- **Soundness of the index** (N-free reads of every length, short ones included): every match returned through the
+    index lies inside the read, is anchored, names an adapter of the list, `errors` is within that adapter's tolerance
+    and is the exact edit (Hamming, if indels are off) distance between the adapter and the removed affix of the
+    upper-cased read. Side condition, for 3' adapters only: every adapter tolerates fewer errors than it is long (otherwise
+    the empty string is indexed and `s[-0:]` is the whole string). Reads with `N` go through `_lookup_with_n`, whose
+    result is a `match_to` of the adapter itself (C01). -/
+theorem index_sound {D : Type} (ops : DictOps D) (hl : ops.Lawful) (adapters : List Adapter) (isPrefix : Bool)
     (read : Bytes) (hacgt : ∀ a ∈ adapters, IsACGT a.seq) (hN : (78 : UInt8) ∉ read.map asciiUpper)
-    (hlen : ∀ l ∈ (makeIndex ops adapters isPrefix).lengths, l ≤ read.length)
-    (hpos : isPrefix = false → ∀ l ∈ (makeIndex ops adapters isPrefix).lengths, 1 ≤ l) :
+    (htol : isPrefix = false → ∀ a ∈ adapters, adapterK a < a.seq.length) :
     IndexSoundFor ops adapters isPrefix read := by
   intro mt h
   obtain ⟨h1, h2, h3, h4, h5, h6, m, _, hg⟩ :=
-    index_lookup_sound ops (makeIndex ops adapters isPrefix) read hN (makeIndex_lengths_desc ops adapters isPrefix) hlen hpos mt h
+    index_lookup_sound ops (makeIndex ops adapters isPrefix) read hN (makeIndex_lengths_desc ops adapters isPrefix)
+      (index_keys_have_indexed_length ops hl adapters isPrefix hacgt)
+      (fun hp => index_lengths_positive ops hl adapters isPrefix hacgt (htol hp)) mt h
   have hpfx : (makeIndex ops adapters isPrefix).isPrefix = isPrefix := rfl
   have hads : (makeIndex ops adapters isPrefix).adapters = adapters := rfl
   rw [hpfx] at h4 hg
@@ -254,71 +287,105 @@ theorem index_sound_partial {D : Type} (ops : DictOps D) (hl : ops.Lawful) (adap
   rw [hgetD] at h6
   exact ⟨a, hai, h1, h2, h3, h4, h5, h6, hk, hd⟩
 
-/-- 3' adapters `ACGT$` and `ACACGT$` (no errors, no indels), read `ACGT`: the read is shorter than the indexed length 6,
-    `s[-6:]` is the whole read, the match is built with length 6 and `rstart = 4 − 6 = −2`. -/
-theorem index_short_read_witness :
-    indexMatchTo alistOps (makeIndex alistOps [mkA .suffix [65,67,71,84] 0 false, mkA .suffix [65,67,65,67,71,84] 0 false] false)
-      [65,67,71,84] = some ⟨0, 0, 4, -2, 4, 4, 0⟩ := by decide
-
-theorem index_sound_counterexample : ¬ index_sound_statement := by
-  intro hst
-  have := hst _ alistOps alistOps_lawful
-    [mkA .suffix [65,67,71,84] 0 false, mkA .suffix [65,67,65,67,71,84] 0 false] false [65,67,71,84]
-    (by decide) (by decide) _ index_short_read_witness
-  obtain ⟨_, _, h0, _⟩ := this
-  exact absurd h0 (by decide)
-
-/-- the same on a 5' index: `rstop = 6` on a read of length 4 -/
+/-- former defect 1 (3' adapters `ACGT$`, `ACACGT$`, read `ACGT`, shorter than the indexed length 6): the length 6 is
+    skipped now and the read is found at length 4, `rstart = 0` (was `−2`) -/
+example : indexMatchTo alistOps (makeIndex alistOps [mkA .suffix [65,67,71,84] 0 false, mkA .suffix [65,67,65,67,71,84] 0 false] false)
+    [65,67,71,84] = some ⟨0, 0, 4, 0, 4, 4, 0⟩ := by decide
+/-- the same on a 5' index: `rstop = 4` (was 6) -/
 example : indexMatchTo alistOps (makeIndex alistOps [mkA .prefix [65,67,71,84] 0 false, mkA .prefix [65,67,71,84,65,67] 0 false] true)
-    [65,67,71,84] = some ⟨0, 0, 4, 0, 6, 4, 0⟩ := by decide
-/-- a long enough read: found, inside the read -/
+    [65,67,71,84] = some ⟨0, 0, 4, 0, 4, 4, 0⟩ := by decide
+/-- a longer read: found, inside the read -/
 example : indexMatchTo alistOps (makeIndex alistOps [mkA .suffix [65,67,71,84] 0 false, mkA .suffix [65,67,65,67,71,84] 0 false] false)
     [84,84,65,67,71,84] = some ⟨0, 0, 4, 2, 6, 4, 0⟩ := by decide
+/-- an instance of `index_sound` with indels: 3' adapter `ACGT$` with one error, read `GGACT` -/
+example : IndexSoundFor alistOps [mkA .suffix [65,67,71,84] 1 true, mkA .suffix [84,84,84,84] 1 true] false [71,71,65,67,84] :=
+  index_sound alistOps alistOps_lawful _ false _ (by decide) (by decide) (fun _ => by decide)
+example : indexMatchTo alistOps (makeIndex alistOps [mkA .suffix [65,67,71,84] 1 true, mkA .suffix [84,84,84,84] 1 true] false)
+    [71,71,65,67,84] = some ⟨0, 0, 4, 2, 5, 3, 1⟩ := by decide +kernel
 
-/-! ## The uncleared tie -/
+/-! ## The nearest adapter is reported -/
 
-/-- **"The nearest adapter is reported"** — what the uniqueness and agreement clauses of C08 come to for equally long
-    adapters without indels: if adapter `i` is within its tolerance of the read's affix and strictly closer to it than
-    every other adapter, the index reports adapter `i` with that distance. False on the unchanged tree. -/
-def index_nearest_statement : Prop :=
-  ∀ (D : Type) (ops : DictOps D), ops.Lawful → ∀ (adapters : List Adapter) (isPrefix : Bool) (read : Bytes) (L : Nat),
-    (∀ a ∈ adapters, IsACGT a.seq ∧ a.seq.length = L ∧ a.indels = false) → IsACGT read → L ≤ read.length →
-    ∀ (i : Nat) (a : Adapter), adapters[i]? = some a →
-      Spec.hamming (· == ·) (removedAffix isPrefix read L) a.seq ≤ adapterK a →
-      (∀ (j : Nat) (b : Adapter), adapters[j]? = some b → j ≠ i →
-        Spec.hamming (· == ·) (removedAffix isPrefix read L) a.seq < Spec.hamming (· == ·) (removedAffix isPrefix read L) b.seq) →
-      ∃ mt, indexMatchTo ops (makeIndex ops adapters isPrefix) read = some mt ∧ mt.adapter = i ∧
-        mt.errors = Spec.hamming (· == ·) (removedAffix isPrefix read L) a.seq
+/-- **The strictly nearest admissible adapter is reported** (equally long adapters, no indels, upper-case ACGT read at
+    least as long as the adapters) — what the uniqueness and agreement clauses of C08 come to: if the adapter at position
+    `i` is within its tolerance of the read's affix and strictly closer to it than every other admissible adapter, the
+    index reports adapter `i` with that distance, whatever the order of the list and whatever ties exist between worse
+    candidates. `Admissible adapters s j b`: `b` is the adapter at position `j` and `s` is within `b`'s tolerance. -/
+theorem index_nearest {D : Type} (ops : DictOps D) (hl : ops.Lawful) (adapters : List Adapter) (isPrefix : Bool)
+    (read : Bytes) (L : Nat)
+    (hads : ∀ a ∈ adapters, IsACGT a.seq ∧ a.seq.length = L ∧ a.indels = false)
+    (hread : IsACGT read) (hL : L ≤ read.length) (hL1 : 1 ≤ L)
+    (i : Nat) (a : Adapter) (hadm : Admissible adapters (removedAffix isPrefix read L) i a)
+    (hstrict : ∀ j b, Admissible adapters (removedAffix isPrefix read L) j b → j ≠ i →
+      Spec.hamming (· == ·) (removedAffix isPrefix read L) a.seq < Spec.hamming (· == ·) (removedAffix isPrefix read L) b.seq) :
+    ∃ mt, indexMatchTo ops (makeIndex ops adapters isPrefix) read = some mt ∧ mt.adapter = i ∧
+      mt.errors = Spec.hamming (· == ·) (removedAffix isPrefix read L) a.seq ∧
+      mt.astart = 0 ∧ mt.astop = L ∧
+      (if isPrefix then mt.rstart = 0 ∧ mt.rstop = L else mt.rstart = ((read.length - L : Nat) : Int) ∧ mt.rstop = read.length) := by
+  have hmem : a ∈ adapters := List.mem_of_getElem? hadm.1
+  have hne : adapters ≠ [] := List.ne_nil_of_mem hmem
+  have hlens := makeIndex_lengths_equal ops adapters isPrefix L hne (fun b hb => ⟨(hads b hb).2.2, (hads b hb).2.1⟩)
+  have hup := asciiUpper_acgt read hread
+  have hN : (78 : UInt8) ∉ read.map asciiUpper := by
+    rw [hup]; intro h; exact absurd (hread 78 h) (by decide)
+  have hsub : ∀ c ∈ removedAffix isPrefix read L, c ∈ acgt := fun c hc => hread c (removedAffix_subset _ _ _ c hc)
+  have hentry := nearest_entry ops hl adapters isPrefix L hads (removedAffix isPrefix read L) hsub
+    (removedAffix_length _ _ _ hL) i a hadm hstrict
+  have hidxp : (makeIndex ops adapters isPrefix).isPrefix = isPrefix := rfl
+  have hg : ops.get? (makeIndex ops adapters isPrefix).index
+      (removedAffix (makeIndex ops adapters isPrefix).isPrefix (read.map asciiUpper) L) = some
+        (i, Spec.hamming (· == ·) (removedAffix isPrefix read L) a.seq,
+          L - Spec.hamming (· == ·) (removedAffix isPrefix read L) a.seq) := by
+    rw [hidxp, hup]; exact hentry
+  have hit := indexMatchTo_one_hit ops (makeIndex ops adapters isPrefix) read L hlens hN (fun _ => hL1) _ _ _ hg
+  refine ⟨_, hit, ?_⟩
+  have hgetD : (makeIndex ops adapters isPrefix).adapters.getD i default = a := by
+    show adapters.getD i default = a
+    simp [List.getD_eq_getElem?_getD, hadm.1]
+  have hla := (hads a hmem).2.1
+  cases isPrefix
+  · simp only [makeMatch, hidxp, Bool.false_eq_true, if_false, hgetD, hla]
+    refine ⟨trivial, trivial, trivial, trivial, by omega, trivial⟩
+  · simp only [makeMatch, hidxp, if_true, hgetD, hla]
+    exact ⟨trivial, trivial, trivial, trivial, trivial, trivial⟩
 
-/-- `^TCGTACGT`, `^CCGTACGT`, `^ACGTACGT`, one mismatch, no indels: the read `ACGTACGTAA` starts with an exact copy of
-    the third adapter, but the index reports nothing — `ACGTACGT` was marked ambiguous when the second adapter tied with
-    the first (7 matches each) and the mark survives the arrival of the exact adapter (8 matches). -/
-theorem index_uncleared_tie_witness :
+/-- **Uniqueness** (equally long adapters, no indels): when exactly one indexed adapter is within its tolerance of the
+    read's affix, the index reports that adapter. -/
+theorem index_unique {D : Type} (ops : DictOps D) (hl : ops.Lawful) (adapters : List Adapter) (isPrefix : Bool)
+    (read : Bytes) (L : Nat)
+    (hads : ∀ a ∈ adapters, IsACGT a.seq ∧ a.seq.length = L ∧ a.indels = false)
+    (hread : IsACGT read) (hL : L ≤ read.length) (hL1 : 1 ≤ L)
+    (i : Nat) (a : Adapter) (hadm : Admissible adapters (removedAffix isPrefix read L) i a)
+    (honly : ∀ j b, Admissible adapters (removedAffix isPrefix read L) j b → j = i) :
+    ∃ mt, indexMatchTo ops (makeIndex ops adapters isPrefix) read = some mt ∧ mt.adapter = i ∧
+      mt.errors = Spec.hamming (· == ·) (removedAffix isPrefix read L) a.seq := by
+  obtain ⟨mt, h1, h2, h3, _⟩ := index_nearest ops hl adapters isPrefix read L hads hread hL hL1 i a hadm
+    (fun j b hb hne => absurd (honly j b hb) hne)
+  exact ⟨mt, h1, h2, h3⟩
+
+/-- former defect 2: `^TCGTACGT`, `^CCGTACGT`, `^ACGTACGT`, one mismatch, no indels, read `ACGTACGTAA` — the exact adapter
+    is listed last, after the two that tie on its sequence; it is reported (the read used to stay unassigned) -/
+theorem index_cleared_tie_witness :
     indexMatchTo alistOps (makeIndex alistOps
       [mkA .prefix [84,67,71,84,65,67,71,84] 1 false, mkA .prefix [67,67,71,84,65,67,71,84] 1 false,
-       mkA .prefix [65,67,71,84,65,67,71,84] 1 false] true) [65,67,71,84,65,67,71,84,65,65] = none := by decide +kernel
+       mkA .prefix [65,67,71,84,65,67,71,84] 1 false] true) [65,67,71,84,65,67,71,84,65,65]
+    = some ⟨2, 0, 8, 0, 8, 8, 0⟩ := by decide +kernel
 
-theorem index_nearest_counterexample : ¬ index_nearest_statement := by
-  intro hst
-  have := hst _ alistOps alistOps_lawful
+/-- the same through `index_nearest` -/
+example : ∃ mt, indexMatchTo alistOps (makeIndex alistOps
+      [mkA .prefix [84,67,71,84,65,67,71,84] 1 false, mkA .prefix [67,67,71,84,65,67,71,84] 1 false,
+       mkA .prefix [65,67,71,84,65,67,71,84] 1 false] true) [65,67,71,84,65,67,71,84,65,65] = some mt ∧ mt.adapter = 2 := by
+  have := index_nearest alistOps alistOps_lawful
     [mkA .prefix [84,67,71,84,65,67,71,84] 1 false, mkA .prefix [67,67,71,84,65,67,71,84] 1 false,
      mkA .prefix [65,67,71,84,65,67,71,84] 1 false] true [65,67,71,84,65,67,71,84,65,65] 8
-    (by decide) (by decide) (by decide) 2 _ rfl (by decide)
+    (by decide) (by decide) (by decide) (by decide) 2 _ ⟨rfl, by decide⟩
     (by
-      intro j b hj hne
-      match j, hj, hne with
-      | 0, hj, _ => simp at hj; subst hj; decide
-      | 1, hj, _ => simp at hj; subst hj; decide
+      intro j b hb hne
+      match j, hb, hne with
+      | 0, ⟨h1, _⟩, _ => simp at h1; subst h1; decide
+      | 1, ⟨h1, _⟩, _ => simp at h1; subst h1; decide
       | 2, _, hne => exact absurd rfl hne
-      | j+3, hj, _ => simp at hj)
-  obtain ⟨mt, hmt, _⟩ := this
-  rw [index_uncleared_tie_witness] at hmt
-  exact absurd hmt (by simp)
-
-/-- with the exact adapter listed first the same read is assigned: the result depends on the order -/
-example : indexMatchTo alistOps (makeIndex alistOps
-      [mkA .prefix [65,67,71,84,65,67,71,84] 1 false, mkA .prefix [84,67,71,84,65,67,71,84] 1 false,
-       mkA .prefix [67,67,71,84,65,67,71,84] 1 false] true) [65,67,71,84,65,67,71,84,65,65]
-    = some ⟨0, 0, 8, 0, 8, 8, 0⟩ := by decide +kernel
+      | j+3, ⟨h1, _⟩, _ => simp at h1)
+  obtain ⟨mt, h1, h2, _⟩ := this
+  exact ⟨mt, h1, h2⟩
 
 end Cutadapt.C08
